@@ -11,9 +11,11 @@ WKCResource is parsed by a parser of our own.  The same history goes to the Lean
 (`Site.modifyAt`, `Site.serve`, `Site.links`, `wkcRender`) and the outputs are diffed.
 
 Oracle (independent reference, shares no code with aiocoap or the model): a dict-based mirror
-of the registrations with a reference router written from the property text and an RFC 6690
-filter; checks handler identity, stripped path, reconstructed URI, the unfiltered listing as a
-multiset and the filtered listing against the matching subset of the unfiltered one.
+of the registrations with a reference router written from the property text, an RFC 3986 / RFC 7252
+§6.4 reader that turns every listed href back into Uri-Path values, and an RFC 6690 filter;
+checks handler identity, stripped path, reconstructed URI, the unfiltered listing as a multiset of
+(path the href names, attributes) and the filtered listing against the links of the unfiltered one
+that match EVERY filter argument.
 """
 import asyncio
 import json
@@ -25,27 +27,38 @@ from common import compare, load_corpus, HarnessError
 
 RULE = ("histories of 4..30 ops on a root Site: add resource / nested Site (<= 3 levels) / "
         "PathCapable leaf / WKCResource, remove, GET; registration paths of 0..3 components drawn "
-        "from a small vocabulary (incl. the empty component) and biased to share prefixes with / "
-        "extend / equal existing keys; request paths derived from registered full paths (as is, "
+        "from a small vocabulary (incl. the empty component and components with URI-reserved, "
+        "link-format-delimiter, control and non-ASCII characters) and biased to share prefixes with / "
+        "extend / equal existing keys (nested sites at the empty path, resources at [''] included); "
+        "request paths derived from registered full paths (as is, "
         "truncated, extended, with '' appended or inserted, one component replaced) or random; "
-        "Uri-Path-Abbrev known/unknown/conflicting; /.well-known/core with no query, one RFC 6690 "
-        "filter over rt/if/ct/title/rel/obs/href/unknown names (whole value, one token, prefix*, "
-        "'*', empty) or non-filter items; boundary tables: every combination of sub-site keys at "
+        "Uri-Path-Abbrev known/unknown/conflicting; /.well-known/core with no query, 1..3 RFC 6690 "
+        "filter arguments over rt/if/ct/title/rel/obs/href/unknown names (whole value, one token, prefix*, "
+        "'*', empty; repeated names; href of a listed link) and non-filter items; boundary tables: every "
+        "combination of sub-site keys at "
         "prefix lengths 0..n of a path of n <= 4 components x exact resource present x trailing "
-        "empty component, and every filter pattern x attribute kind. Non-trivial: at least one "
+        "empty component, every filter pattern x attribute kind, every pair and selected triples of "
+        "filter arguments selecting overlapping / disjoint subsets, every ASCII character and selected "
+        "UTF-8 sequences as a path component (alone, below a nested site, as nested-site key), "
+        "[] / [''] / ['',''] resources x nested site keys [] / ['k'] / ['k','']. Non-trivial: at least one "
         "request answered by a handler and one registration below a nested site or one 4.04; "
         "distinct by full history.")
 TRUSTED = ["harness link-format parser and fake remote endpoint (harness/props/C17.py)"]
 ASSUMPTIONS = [
-    "path components free of URI-reserved characters ('/', '<', '>', '%', ...): "
-    "get_resources_as_linkheader does not escape them (outside the property's quantifier)",
-    "one filter per query (RFC 6690 §4.1); several 'k=v' items are out of model",
+    "path components '.' and '..' are not generated (RFC 7252 §5.10.1: a Uri-Path value MUST NOT be one)",
+    "a full path that begins with an empty component has no path-absolute name (RFC 3986 §3.3: '//x' is a "
+    "network-path reference; RFC 7252 §6.4 turns '/' into NO Uri-Path, never into the lone ''): such "
+    "registrations are generated and compared model~code, the oracle checks their routing and only "
+    "the count and attributes of their links",
     "attribute names are ASCII; names differing only in case are compared model~code only",
-    "sub-site registered at the empty path (never routable) is compared model~code only",
 ]
 
 VOCAB = ["a", "b", "c", "ab", "abc", "x", "core", ".well-known", "sensors", "temp", "ä", "日本",
          "A", "a.b", "a-b_c~", "0"]
+# components that need escaping on their way into a link target (or look as if they were escaped)
+VOCAB_RESERVED = ["a b", "a/b", "x>y", "a,b", "%41", "q?x", "s;t", "<", ">", "#f", "a%2Fb", "&=",
+                  "\"q\"", "\\", "a:b@c", "é/è", "\x7f", "\t", "+", "*", "()", "[", "]", "{|}", "^`",
+                  "100%", "%", "%zz", "a/", "/", "//", " ", "a;rt=\"x\",</y", "\u20ac", "..."]
 WK = [".well-known", "core"]
 # draft-ietf-core-uri-path-abbrev (the oracle's own copy of the registry)
 ORACLE_UPA = {0: [".well-known", "core"], 1: [".well-known", "rd"], 2: [".well-known", "edhoc"],
@@ -380,18 +393,21 @@ def ref_at(root, addr):
     return s
 
 
-def ref_route(site, path):
+def ref_route(site, path, nested=False):
     """(id, path the handler sees) or None: the resource registered at exactly that path, else
-    the nested site at the longest proper prefix, which gets the remaining components (a lone
-    trailing empty component addresses the nested site's own root), else nothing."""
+    the nested site at the longest proper prefix (the empty path is a proper prefix of every other
+    one), which gets the remaining components (a lone trailing empty component addresses the
+    nested site's own root, which its resource at [] or else at [''] is), else nothing."""
     path = tuple(path)
     if isinstance(site, tuple):
         return (site[1], path)
     if path in site.resources:
         return (site.resources[path][0], ())
+    if nested and path == () and ("",) in site.resources:
+        return (site.resources[("",)][0], ())
     best = None
     for key in site.subsites:
-        if 0 < len(key) < len(path) and path[:len(key)] == key:
+        if len(key) < len(path) and path[:len(key)] == key:
             if best is None or len(key) > len(best):
                 best = key
     if best is None:
@@ -399,22 +415,61 @@ def ref_route(site, path):
     rest = path[len(best):]
     if rest == ("",):
         rest = ()
-    return ref_route(site.subsites[best], rest)
+    return ref_route(site.subsites[best], rest, nested=True)
 
 
-def ref_listing(site, prefix, out, odd):
-    """visible resources with full paths: (href, attrs)"""
+def ref_listing(site, prefix, out, nested=False):
+    """visible resources with the request path their full path through the nested sites is:
+    (Uri-Path values, attrs).  The root of a nested site at k is k + ('',)."""
     for path, (rid, hidden, attrs) in site.resources.items():
         if hidden:
             continue
-        full = list(prefix) + (list(path) if (path or not prefix) else [""])
-        out.append(("/" + "/".join(full), [(k, v) for k, v in attrs]))
+        full = tuple(prefix) + (tuple(path) if (path or not nested) else ("",))
+        out.append((full, [(k, v) for k, v in attrs]))
     for key, sub in site.subsites.items():
         if isinstance(sub, tuple):
             continue
-        if not key:
-            odd.append("subsite at empty path")
-        ref_listing(sub, list(prefix) + list(key), out, odd)
+        ref_listing(sub, tuple(prefix) + tuple(key), out, nested=True)
+
+
+# RFC 3986 §3.3: pchar = unreserved / pct-encoded / sub-delims / ":" / "@"
+PCHAR = set("ABCDEFGHIJKLMNOPQRSTUVWXYZabcdefghijklmnopqrstuvwxyz0123456789-._~!$&'()*+,;=:@")
+HEXDIG = set("0123456789ABCDEFabcdef")
+
+
+def href_to_path(href):
+    """The Uri-Path values a client sends for a listed link target: the target has to be a
+    path-absolute reference (RFC 3986 §4.2: "/" not followed by a second "/"; segments of pchar),
+    free of dot segments; RFC 7252 §6.4 step 8: "/" alone gives no Uri-Path, otherwise one per
+    segment, percent-decoded (UTF-8).  None: the target is none of that."""
+    if not href.startswith("/") or href.startswith("//"):
+        return None
+    if href == "/":
+        return ()
+    out = []
+    for segment in href[1:].split("/"):
+        raw = bytearray()
+        i = 0
+        while i < len(segment):
+            c = segment[i]
+            if c == "%":
+                h = segment[i + 1:i + 3]
+                if len(h) != 2 or h[0] not in HEXDIG or h[1] not in HEXDIG:
+                    return None
+                raw.append(int(h, 16))
+                i += 3
+            elif c in PCHAR:
+                raw.append(ord(c))
+                i += 1
+            else:
+                return None
+        if segment in (".", ".."):
+            return None
+        try:
+            out.append(raw.decode("utf-8"))
+        except UnicodeDecodeError:
+            return None
+    return tuple(out)
 
 
 def rfc6690_match(link, k, v):
@@ -444,6 +499,10 @@ def rfc6690_match(link, k, v):
 
 def multiset(links):
     return sorted((h, tuple((k, (0, "") if v is None else (1, v)) for k, v in a)) for h, a in links)
+
+
+def attrs_key(a):
+    return tuple((k, (0, "") if v is None else (1, v)) for k, v in a)
 
 
 def oracle(case, obs):
@@ -527,35 +586,42 @@ def oracle_links(case, root, impl_info, queries, o):
     def strip(links):
         return [l for l in links if not (impl_info and l[0] == impl_info)]
     filters = [q.split("=", 1) for q in queries if "=" in q]
-    if len(filters) > 1:
-        return None
-    want, odd = [], []
-    ref_listing(root, [], want, odd)
-    if odd:
-        return None
+    want = []
+    ref_listing(root, (), want)
     full = o.get("full") if queries else o["links"]
     if full is None:
         return ("unfiltered /.well-known/core did not answer with a link list", "wkc-listing")
-    if multiset(strip(full)) != multiset(want):
-        missing = [l for l in multiset(want) if l not in multiset(strip(full))]
-        extra = [l for l in multiset(strip(full)) if l not in multiset(want)]
-        return (f"/.well-known/core lists {len(full)} links; missing {missing[:3]} unexpected "
-                f"{extra[:3]}", "wkc-listing")
+    # every visible registered resource is named once, by a target that leads back to its path;
+    # full paths beginning with an empty component have no path-absolute name (see ASSUMPTIONS)
+    nameable = sorted((p, attrs_key(a)) for p, a in want if not (p and p[0] == ""))
+    unnameable = sorted(attrs_key(a) for p, a in want if p and p[0] == "")
+    rest = []
+    todo = list(nameable)
+    for href, attrs in strip(full):
+        entry = (href_to_path(href), attrs_key(attrs))
+        if entry[0] is not None and entry in todo:
+            todo.remove(entry)
+        else:
+            rest.append((href, attrs))
+    if todo or sorted(attrs_key(a) for _, a in rest) != unnameable:
+        return (f"/.well-known/core lists {len(strip(full))} links; registered but not named by any link "
+                f"target: {todo[:3]}; links naming no registered resource: {rest[:3]}", "wkc-listing")
     if impl_info and not any(l[0] == impl_info for l in full):
         return ("impl-info link missing from the unfiltered listing", "wkc-impl-info")
     if not filters:
         if queries and multiset(o["links"]) != multiset(full):
             return (f"query {queries} without a filter changed the listing", "wkc-nonfilter-query")
         return None
-    k, v = filters[0]
-    verdicts = [rfc6690_match(l, k, v) for l in strip(full)]
-    if any(x is None for x in verdicts):
+    # RFC 6690 §4.1 per argument; a link is in the answer iff it matches every one of them
+    verdicts = [[rfc6690_match(l, k, v) for k, v in filters] for l in strip(full)]
+    if any(x is None for row in verdicts for x in row):
         return None
-    expect = [l for l, x in zip(strip(full), verdicts) if x]
+    expect = [l for l, row in zip(strip(full), verdicts) if all(row)]
     got = strip(o["links"])
     if multiset(got) != multiset(expect):
-        return (f"?{k}={v}: got {[l[0] for l in got]}, the links matching per RFC 6690 are "
-                f"{[l[0] for l in expect]}", f"wkc-filter:{k}={v}"[:60])
+        q = "&".join(f"{k}={v}" for k, v in filters)
+        return (f"?{q}: got {[l[0] for l in got]}, the links matching per RFC 6690 are "
+                f"{[l[0] for l in expect]}", f"wkc-filter:{q}"[:60])
     return None
 
 
@@ -591,7 +657,12 @@ def gen_attrs(rng):
 
 
 def gen_component(rng):
-    return "" if rng.random() < 0.13 else rng.choice(VOCAB)
+    r = rng.random()
+    if r < 0.13:
+        return ""
+    if r < 0.25:
+        return rng.choice(VOCAB_RESERVED)
+    return rng.choice(VOCAB)
 
 
 def gen_reg_path(rng, existing, for_site):
@@ -609,6 +680,8 @@ def gen_reg_path(rng, existing, for_site):
             return p[:rng.randrange(1, len(p) + 1)]
     if r < (0.53 if for_site else 0.6):
         return []
+    if r < 0.64 and not for_site:
+        return [""]
     return [gen_component(rng) for _ in range(rng.choice([1, 1, 1, 2, 2, 3]))]
 
 
@@ -634,14 +707,14 @@ class Builder:
             if sub is not None:
                 yield from self.nodes(sub, addr + (k,))
 
-    def full_paths(self, shape=None, prefix=()):
+    def full_paths(self, shape=None, prefix=(), nested=False):
         shape = shape or self.shape
         for p in shape["res"]:
-            yield list(prefix) + (list(p) if (p or not prefix) else [""])
+            yield list(prefix) + (list(p) if (p or not nested) else [""])
         for k, sub in shape["sub"].items():
             yield list(prefix) + list(k)
             if sub is not None:
-                yield from self.full_paths(sub, prefix + k)
+                yield from self.full_paths(sub, prefix + k, True)
 
     def add_wkc(self, addr=(), path=WK):
         if self.case["wkc"] is None:
@@ -719,18 +792,13 @@ def gen_request_path(rng, b):
     return p[:rng.randrange(len(p) + 1)]
 
 
-def gen_queries(rng, b):
-    """queries for a /.well-known/core request"""
-    r = rng.random()
-    if r < 0.25:
-        return []
-    # collect attribute values in use
-    vals = []
-    for op in b.ops:
-        if op[0] == "R" and not op[4]:
-            vals.extend((k, v) for k, v in op[5])
-    if r < 0.32:
-        return [rng.choice(["obs", "rt", "", "x y", "*"])]
+def href_of(path):
+    """how a client would write the path (for generating href filters; not used by the oracle)"""
+    return "".join("/" + urllib.parse.quote(c, safe="-._~!$&'()*+,;=:@") for c in path) or "/"
+
+
+def gen_filter(rng, b, vals):
+    """one filter argument `k=pattern` for a /.well-known/core request"""
     if vals and rng.random() < 0.75:
         k, v = rng.choice(vals)
         k = k if rng.random() < 0.93 else rng.choice(["rt", "title", "foo"])
@@ -741,7 +809,7 @@ def gen_queries(rng, b):
     if k == "href" or rng.random() < 0.1:
         k = "href"
         fulls = list(b.full_paths()) or [["a"]]
-        v = "/" + "/".join(rng.choice(fulls))
+        v = href_of(rng.choice(fulls)) if rng.random() < 0.8 else "/" + "/".join(rng.choice(fulls))
     v = v or ""
     m = rng.random()
     if m < 0.3:
@@ -763,11 +831,37 @@ def gen_queries(rng, b):
         pat = v[1:] + "*" if v else "x*"
     else:
         pat = v + rng.choice(["x", " ", "*x", "**"])
-    qs = [f"{k}={pat}"]
+    return f"{k}={pat}"
+
+
+def gen_queries(rng, b):
+    """queries for a /.well-known/core request: no filter, or 1..3 filter arguments (repeated
+    names, one argument twice, arguments selecting different links), mixed with non-filter items"""
+    r = rng.random()
+    if r < 0.22:
+        return []
+    # collect attribute values in use
+    vals = []
+    for op in b.ops:
+        if op[0] == "R" and not op[4]:
+            vals.extend((k, v) for k, v in op[5])
+    if r < 0.28:
+        return [rng.choice(["obs", "rt", "", "x y", "*"])]
+    n = rng.choice([1, 1, 1, 1, 1, 2, 2, 2, 3])
+    qs = [gen_filter(rng, b, vals)]
+    while len(qs) < n:
+        u = rng.random()
+        if u < 0.12:
+            qs.append(rng.choice(qs))                               # the same argument twice
+        elif u < 0.3:
+            k = qs[0].split("=", 1)[0]                              # the same name, another pattern
+            qs.append(k + "=" + gen_filter(rng, b, vals).split("=", 1)[1])
+        elif u < 0.45:
+            qs.append(rng.choice(["rt=*", "if=*", "href=/*", "title=*", "ct=40", "rt=temp"]))
+        else:
+            qs.append(gen_filter(rng, b, vals))
     if rng.random() < 0.08:
-        qs.insert(rng.randrange(2), rng.choice(["obs", "page", ""]))
-    if rng.random() < 0.03:
-        qs.append("rt=temp")    # two filters: outside RFC 6690, out of model
+        qs.insert(rng.randrange(len(qs) + 1), rng.choice(["obs", "page", ""]))
     return qs
 
 
@@ -955,6 +1049,130 @@ def boundary_filter_cases(impl_uri):
     return cases
 
 
+def boundary_multifilter_cases(impl_uri):
+    """a fixed set of links whose attributes make the filter arguments select overlapping,
+    nested and disjoint subsets; every ordered pair of arguments (so "only the last one is
+    applied" and "only the first one" both show), selected ordered triples, a non-filter item in
+    between, the same argument twice"""
+    args = ["rt=temp", "rt=light", "if=sensor", "if=actuator", "rt=t*", "rt=l*", "href=/t",
+            "href=/sub/*", "href=/*", "title=multi", "title=m*", "obs=*", "nosuch=x", "rt=*",
+            "ct=40", "rel=impl-info"]
+
+    def site(impl):
+        b = Builder(None, impl_info=impl)
+        b.add_wkc()
+        b.add_res([], ["t"], hidden=False, attrs=[("rt", "temp"), ("if", "sensor")], kind="rec")
+        b.add_res([], ["l"], hidden=False, attrs=[("rt", "light"), ("if", "sensor")], kind="rec")
+        b.add_res([], ["u"], hidden=False, attrs=[("rt", "temp"), ("if", "actuator")], kind="rec")
+        b.add_res([], ["m"], hidden=False, attrs=[("rt", "temp light"), ("title", "multi")], kind="rec")
+        b.add_res([], ["o"], hidden=False, attrs=[("obs", None), ("rt", "light")], kind="rec")
+        b.add_res([], ["p"], hidden=False, attrs=[], kind="rec")
+        b.add_res([], ["h"], hidden=True, attrs=[], kind="rec")
+        b.add_site([], ["sub"])
+        b.add_res([["sub"]], ["n"], hidden=False, attrs=[("rt", "temp"), ("if", "sensor actuator")], kind="rec")
+        b.add_res([["sub"]], [], hidden=False, attrs=[("title", "multi"), ("if", "actuator")], kind="rec")
+        return b
+    cases = []
+    for i, first in enumerate(args):
+        b = site(impl_uri if i % 2 else "")
+        b.get(WK, entry="pipe")
+        b.get(WK, queries=[first], entry="pipe")
+        for second in args:
+            b.get(WK, queries=[first, second], entry="pipe" if i % 3 else "render")
+        b.get(WK, queries=[first, "page", args[(i + 1) % len(args)]], entry="pipe")
+        b.get([], upa=0, queries=[first, args[(i + 5) % len(args)]])
+        cases.append(b.case)
+    triple_args = ["rt=temp", "if=sensor", "href=/sub/*", "rt=l*", "title=m*", "if=actuator"]
+    for x in triple_args:
+        b = site("")
+        for y in triple_args:
+            for z in triple_args:
+                if len({x, y, z}) >= 2:
+                    b.get(WK, queries=[x, y, z], entry="pipe")
+        cases.append(b.case)
+    return cases
+
+
+def boundary_escape_cases():
+    """every ASCII character (alone and inside a component) and selected UTF-8 sequences as a path
+    component of a root resource, of a resource below a nested site, and as the key of a nested
+    site; components that differ only by what escaping has to keep apart"""
+    comps = [chr(c) for c in range(128)] + ["x" + chr(c) + "y" for c in range(128)]
+    comps = [c for c in comps if c not in (".", "..")]
+    comps += ["ä", "日本", "\u20ac", "\U0001f600", "é/è", "\x80",
+              "%41", "A", "%2F", "a%2Fb", "a/b", "%", "%%", "%4", "100%", "a b", "a+b", "a%20b",
+              "x>y", "a,b", "s;t", "</y>;rt=\"z\"", "...", ".a", "a.", "%2e", "%2E%2E"]
+    cases = []
+    for start in range(0, len(comps), 12):
+        chunk = comps[start:start + 12]
+        b = Builder(None)
+        b.add_wkc()
+        b.add_site([], ["n"])
+        n = 0
+        for c in chunk:
+            n += 1
+            b.add_res([], [c], hidden=False, attrs=[("sz", str(n))], kind="rec")
+            n += 1
+            b.add_res([["n"]], [c, ""], hidden=False, attrs=[("sz", str(n))], kind="rec")
+            b.add_site([], [c, "s"])
+            n += 1
+            b.add_res([[c, "s"]], ["r"], hidden=False, attrs=[("sz", str(n))], kind="rec")
+        b.get(WK, entry="pipe")
+        for c in chunk:
+            b.get([c], entry="pipe")
+            b.get(["n", c, ""], entry="pipe")
+            b.get([c, "s", "r"], entry="pipe")
+            b.get(WK, queries=["href=" + href_of([c]) + "*"], entry="pipe")
+        cases.append(b.case)
+    # pairs that unescaped joining would confuse
+    b = Builder(None)
+    b.add_wkc()
+    for i, path in enumerate([["a/b"], ["a", "b"], ["%41"], ["A"], ["a%2Fb"], ["a", ""], ["a/"], ["a//"],
+                              ["a", "", ""], ["q?x"], ["q"], ["f#g"], ["f"], ["a b"], ["a%20b"]]):
+        b.add_res([], path, hidden=False, attrs=[("sz", str(i))], kind="rec")
+    b.get(WK, entry="pipe")
+    for op in list(b.ops):
+        if op[0] == "R" and op[6] == "rec":
+            b.get(op[2], entry="pipe")
+    cases.append(b.case)
+    return cases
+
+
+def boundary_root_spelling_cases():
+    """the spellings of a site's root: resources at [] / [''] / ['',''] / ['a'] (every non-empty
+    subset) in a nested site registered at [] / ['k'] / ['k',''], with and without root-level
+    resources at [] and ['']; requests for every address around them, before and after the []
+    resource is removed"""
+    res_paths = [[], [""], ["", ""], ["a"]]
+    cases = []
+    for key in ([], ["k"], ["k", ""]):
+        for mask in range(1, 16):
+            for rootmask in range(4):
+                b = Builder(None)
+                b.add_wkc()
+                b.add_site([], key)
+                for i, rp in enumerate(res_paths):
+                    if mask >> i & 1:
+                        b.add_res([key], rp, hidden=False, attrs=[("sz", str(i))], kind="rec")
+                if rootmask & 1:
+                    b.add_res([], [], hidden=False, attrs=[("sz", "10")], kind="rec")
+                if rootmask & 2:
+                    b.add_res([], [""], hidden=False, attrs=[("sz", "11")], kind="rec")
+                for rnd in range(2):
+                    b.get(WK, entry="pipe")
+                    for tail in ([], [""], ["", ""], ["a"], ["", "a"], ["a", ""]):
+                        b.get(key + tail, entry="pipe" if (mask + rnd) % 2 else "render")
+                    for p in ([], [""], ["", ""]):
+                        b.get(p, entry="pipe")
+                    if rnd == 0:
+                        if mask & 1:
+                            b.remove([key], [])
+                        else:
+                            b.add_res([key], [], hidden=False, attrs=[("sz", "20")], kind="rec")
+                cases.append(b.case)
+    return cases
+
+
 # --------------------------------------------------------------------------- run
 
 def classify(rep, case, outs):
@@ -964,6 +1182,12 @@ def classify(rep, case, outs):
         rep.count("op=" + op[0])
         if op[0] in "SFRD":
             depth = max(depth, len(op[1]) + (1 if op[0] in "SF" else 0))
+        if op[0] in "SF" and not op[2]:
+            rep.count("reg:site-at-empty-path")
+        if op[0] == "R" and op[2] == [""] and op[1]:
+            rep.count("reg:nested-lone-empty-component")
+        if op[0] in "SFR" and any(any(ch not in PCHAR for ch in c) for c in op[2]):
+            rep.count("reg:component-needs-escaping")
         if op[0] == "G":
             rep.count("entry=" + op[4])
             if op[1] is not None:
@@ -971,8 +1195,8 @@ def classify(rep, case, outs):
             if op[3]:
                 f = [q for q in op[3] if "=" in q]
                 rep.count("query:filters=%d" % len(f))
-                if len(f) == 1:
-                    k, v = f[0].split("=", 1)
+                for one in f:
+                    k, v = one.split("=", 1)
                     rep.count("filter:key=" + (k if k in ("rt", "if", "ct", "title", "rel", "obs", "href")
                                                else "other"))
                     rep.count("filter:" + ("prefix" if v.endswith("*") else "exact"))
@@ -1006,10 +1230,12 @@ def run(env, rep):
             c["impl_info"] = impl_uri
         cases.append(c)
         rep.count("source=corpus")
-    bt = boundary_routing_cases() + boundary_upa_cases() + boundary_filter_cases(impl_uri) + boundary_alias_cases()
+    bt = (boundary_routing_cases() + boundary_upa_cases() + boundary_filter_cases(impl_uri) + boundary_alias_cases()
+          + boundary_multifilter_cases(impl_uri) + boundary_escape_cases() + boundary_root_spelling_cases())
     rep.count("source=boundary", len(bt))
-    rep.exhaustive_parts.append(f"routing boundary table ({len(boundary_routing_cases())} histories), Uri-Path-Abbrev table "
-                                "and filter pattern table enumerated in full")
+    rep.exhaustive_parts.append(f"routing boundary table ({len(boundary_routing_cases())} histories), Uri-Path-Abbrev table, "
+                                "filter pattern table, all ordered pairs of 16 filter arguments, every ASCII character as "
+                                "path component, and the []/['']/['',''] root-spelling table enumerated in full")
     cases += bt
     n = env.scale(4000, 60000)
     for _ in range(n):
@@ -1039,9 +1265,13 @@ def run(env, rep):
         compare(env, rep, kept, lines, impl_outs, what="site history")
     finally:
         loop.close()
+    if rep.oracle_failures or rep.disagreements:
+        return      # implementation-derived counters mean nothing on a failing tree
     for need in ("result=H", "result=404", "result=L", "result=KeyError", "result=ok", "result=402",
                  "hit:leaf-with-remainder", "nesting-depth=3", "filter:prefix", "filter:exact",
-                 "entry=render", "entry=pipe", "upa"):
+                 "entry=render", "entry=pipe", "upa", "query:filters=0", "query:filters=1",
+                 "query:filters=2", "query:filters=3", "reg:site-at-empty-path",
+                 "reg:nested-lone-empty-component", "reg:component-needs-escaping"):
         if not rep.hist.get(need):
             raise HarnessError(f"generators produced no case with {need}")
 
